@@ -286,8 +286,46 @@ def _task_b(args):
     return st, vios, sample
 
 
+def _task_e(args):
+    """the JSON text carries everything a message holds (time stamp, raw frame as bytes or text, source identity): the
+    round trip must hold whichever entry point produced the message"""
+    idxs, seed = args
+    db = refdb.db()
+    enc = NMEA2000Encoder()
+    vios = []
+    st = {"cases": 0, "roundtrips": 0, "nontrivial": 0}
+    for di in idxs:
+        defn = db.defs[di]
+        for b in ("mid", "max"):
+            p, n = payloads.build(defn, payloads.base_assignment(defn, b))
+            if n == 0 or n > 223 or (not defn.fast and n > 8):
+                continue
+            payload = p.to_bytes(n, "little")
+            for mapped in (False, True):
+                for name, fn in wire.entry_points(defn.pgn, payload, defn.fast, prio=6, src=7, dst=255 if ((defn.pgn >> 8) & 0xFF) >= 240 else 0).items():
+                    dec = NMEA2000Decoder(build_network_map=mapped)
+                    if mapped:
+                        dec.decode_tcp(wire.claim_packet(7, wire.iso_name(unique=77, mfr=1855)))
+                    st["cases"] += 1
+                    try:
+                        msg = fn(dec)
+                    except Exception:  # noqa: BLE001
+                        continue
+                    if msg is None:
+                        continue
+                    st["roundtrips"] += 1
+                    st["nontrivial"] += 1
+                    for kind, facts, detail in roundtrip(msg, db.by_id.get((msg.PGN, msg.id)), enc):
+                        if len(vios) < 40:
+                            vios.append({"kind": kind, "facts": dict(facts, definition=msg.id, entry=name, mechanism="depends_on_entry_point"),
+                                         "signature": f"entry:{kind}:{defn.pgn}:{msg.id}:{name}",
+                                         "detail": f"[PGN {defn.pgn} {msg.id} payload={payload.hex()[:60]} decoded through {name} identity={'yes' if mapped else 'no'}] {detail}",
+                                         "case": {"part": "e", "pgn": defn.pgn, "definition": defn.id, "payload_hex": payload.hex(), "entry": name, "mapped": mapped}})
+    return st, vios, None
+
+
 def _dispatch(t):
-    return _task_a(t[1]) if t[0] == "a" else _task_b(t[1])
+    return {"a": _task_a, "b": _task_b, "e": _task_e}[t[0]](t[1])
 
 
 def run(ctx):
@@ -308,13 +346,15 @@ def run(ctx):
     for j, ex in enumerate(e for e in EXTRAS if e != "plain"):
         for i, c in enumerate(few):
             tasks.append(("b", ([c], depth, 100 + 10 * j + i, ex)))
+    for j in range(16):
+        tasks.append(("e", (list(range(n))[j::16], ctx.seed)))
     results = common.pmap(_dispatch, tasks)
     vios, samples = [], []
     a = {"cases": 0, "roundtrips": 0, "nontrivial": 0}
     b = {"runs": 0, "nontrivial": 0, "lines": 0}
     for t, (st, v, s) in zip(tasks, results):
         vios += v
-        tgt = a if t[0] == "a" else b
+        tgt = a if t[0] in ("a", "e") else b
         for k in tgt:
             tgt[k] += st[k]
         if s and len([x for x in samples if x["part"] == t[0]]) < 2:
@@ -326,7 +366,7 @@ def run(ctx):
         "rule": "(a) one case per payload of the k=1 enumeration over all definitions, every third one decoded with a source identity "
                 "attached; non-trivial = a field off base. (b) one run per (dump filter, history); non-trivial = at least two messages returned",
         "samples": samples, "part_a": a, "part_b": dict(b, filter_configurations=len(cfgs), history_depth=depth),
-        "bound_completed": f"(a) <=1 deviating field from 5 bases{', <=2 from base mid, every raw of fields <= 8 bits' if ctx.thorough else ''}; (b) all histories up to {depth} events over an 8-event alphabet x {len(cfgs)} filters",
+        "bound_completed": f"(a) <=1 deviating field from 5 bases{', <=2 from base mid, every raw of fields <= 8 bits' if ctx.thorough else ''}; (b) all histories up to {depth} events over an 8-event alphabet x {len(cfgs)} filters; (e) bases mid and max of every definition through 6 entry points, with and without identity",
         "exhaustive": True,
     }
     return {"coverage": cov, "violations": vios,
@@ -347,6 +387,10 @@ def replay(ctx, rep):
         prio, src, dst = c.get("addr", [3, 7, 255])
         msg = dec.decode_basic_string(wire.plain_line(prio, c["pgn"], src, dst, data), already_combined=True)
         res = roundtrip(msg, db.by_id.get((msg.PGN, msg.id)), NMEA2000Encoder())
+    elif c["part"] == "e":
+        db = refdb.db()
+        st, v, _ = _task_e(([db.by_id[(c["pgn"], c["definition"])].idx], 0))
+        return [x for x in v if x["case"]["entry"] == c["entry"] and x["case"]["mapped"] == c["mapped"] and x["case"]["payload_hex"] == c["payload_hex"]][:1]
     else:
         work = ctx.scratch()
         cfg = tuple(c["filter"])
